@@ -148,14 +148,23 @@ def check_guard(name, fn, symbolic: Dict[str, Tuple[int, int]], concrete: Dict[s
     obs = []
     for p, (lo, hi) in symbolic.items():
         x = sym[p]
-        s = z3.Solver()
-        s.set("timeout", timeout_ms)
-        s.add(A, z3.Or(x < z3.BitVecVal(lo, PI.W), x > z3.BitVecVal(hi, PI.W)))
-        r = str(s.check())
-        ob = {"guard": name, "source": src, "parameter": p, "required": [lo, hi], "paths": npaths, "result": r}
-        if r == "sat":
-            ob["witness"] = {q: s.model().eval(v, model_completion=True).as_signed_long() for q, v in sym.items()}
-        obs.append(ob)
+        # two obligations per parameter (below / above the encodable range), so that a witness on either side is replayed
+        for side, bad in (("below", x < z3.BitVecVal(lo, PI.W)), ("above", x > z3.BitVecVal(hi, PI.W))):
+            s = z3.Solver()
+            s.set("timeout", timeout_ms)
+            s.add(A, bad)
+            for q, (lo2, hi2) in symbolic.items():
+                if q != p:      # the other integer parameters stay inside their ranges, so that the witness isolates p
+                    s.add(sym[q] >= z3.BitVecVal(lo2, PI.W), sym[q] <= z3.BitVecVal(hi2, PI.W))
+            # prefer a witness close to the boundary
+            near = z3.And(x >= z3.BitVecVal(lo - 2, PI.W), x <= z3.BitVecVal(hi + 2, PI.W))
+            r = str(s.check(near))
+            if r != "sat":
+                r = str(s.check())
+            ob = {"guard": name, "source": src, "parameter": p, "side": side, "required": [lo, hi], "paths": npaths, "result": r}
+            if r == "sat":
+                ob["witness"] = {q: s.model().eval(v, model_completion=True).as_signed_long() for q, v in sym.items()}
+            obs.append(ob)
     s = z3.Solver()
     s.set("timeout", timeout_ms)
     s.add(A)
